@@ -82,6 +82,7 @@ type apCase struct {
 	// authenticator defects
 	aCname     []string
 	aCnt       int32
+	frac       time.Duration // the service's clock stands this far into a second when the request arrives
 	aCrealm    string
 	ctimeOff   time.Duration // ctime+cusec = now + ctimeOff
 	ctimeYears int           // ... plus this many years (beyond what a Duration can express)
@@ -136,6 +137,7 @@ func (c apCase) describe() string {
 	add(c.truncTkt > 0, "trunctkt")
 	add(c.aCname != nil, "acname="+strings.Join(c.aCname, "/"))
 	add(c.aCnt != c.cnt, "acnametype")
+	add(c.frac != 0, fmt.Sprintf("clock+%v", c.frac))
 	add(c.aCrealm != "", "acrealm="+c.aCrealm)
 	add(c.ctimeOff != 0, fmt.Sprintf("ctime=%v", c.ctimeOff))
 	add(c.ctimeYears != 0, fmt.Sprintf("ctime=%+dy", c.ctimeYears))
